@@ -45,6 +45,22 @@ def op_gen_cli(c):
         shutil.rmtree(d, ignore_errors=True)
 
 
+def op_api_text(c):
+    """the file the API writes for the same parameters: write_robots(gen_rnd_board(seed, length, width, t, m, f), r, p, q)"""
+    import roberta_generator as rg
+    seed, length, width, t, m, f, ptb, prb, plb = dec(c["args"])
+    d = _scratch()
+    try:
+        moves, rewards, loose = rg.gen_rnd_board(seed, length, width, t, m, f)
+        fn = os.path.join(d, "api.py")
+        rg.write_robots(fn, length, width, moves, rewards, loose, ptb, prb, plb)
+        return {"text": open(fn).read(), "loose": enc(loose)}
+    except Exception as e:   # noqa: BLE001
+        return {"exc": type(e).__name__, "msg": str(e)}
+    finally:
+        shutil.rmtree(d, ignore_errors=True)
+
+
 def op_manual_name(c):
     """stochastic_game_from_roborta_board.create_sg_from_board in a scratch cwd; the files created"""
     import stochastic_game_from_roborta_board as sgb
@@ -103,5 +119,5 @@ def op_read_dict(c):
         return {"exc": type(e).__name__, "msg": str(e)[:300]}
 
 
-OPS = {"gen_cli": op_gen_cli, "manual_name": op_manual_name, "solver_cli": op_solver_cli,
+OPS = {"gen_cli": op_gen_cli, "api_text": op_api_text, "manual_name": op_manual_name, "solver_cli": op_solver_cli,
        "read_dict": op_read_dict}
